@@ -170,7 +170,7 @@ def measure(args):
     measurement runs in a child process that is killed when the budget is exceeded by more than a few
     seconds - a signal alone cannot interrupt a single regex match"""
     from ..common import run_killable
-    r = run_killable(_measure_inner, args, BUDGET_S + 8)
+    r = run_killable(_measure_inner, args, 6 * BUDGET_S)
     if r is None or (isinstance(r, tuple) and r and r[0] == "__error__"):
         name, k = args
         text = FAMILIES[name](k)
@@ -183,22 +183,22 @@ def _measure_inner(args):
     name, k = args
     text = FAMILIES[name](k)
     c = Counter()
-    t0 = time.time()
+    t0 = time.process_time()   # processor time: independent of the load of the machine
 
     def onalarm(sig, frm):
         raise _Timeout()
 
-    old = signal.signal(signal.SIGALRM, onalarm)
-    signal.setitimer(signal.ITIMER_REAL, BUDGET_S)
+    old = signal.signal(signal.SIGPROF, onalarm)
+    signal.setitimer(signal.ITIMER_PROF, BUDGET_S)
     try:
         st, calls, ts, lex = c.run(text)
     except _Timeout:
         sys.settrace(None)
         st, calls, ts, lex = "TIMEOUT", c.calls, c.ts, c.lex
     finally:
-        signal.setitimer(signal.ITIMER_REAL, 0)
-        signal.signal(signal.SIGALRM, old)
-    return (name, k, len(text), st, calls, ts, lex, time.time() - t0, text)
+        signal.setitimer(signal.ITIMER_PROF, 0)
+        signal.signal(signal.SIGPROF, old)
+    return (name, k, len(text), st, calls, ts, lex, time.process_time() - t0, text)
 
 
 def too_fast(a, b):
@@ -230,7 +230,7 @@ def measure_family(args):
     instances repeated one by one, each in a child of its own"""
     from ..common import run_killable
     name, ks = args
-    r = run_killable(_measure_family_inner, (name, ks, False), (BUDGET_S + 2) * len(ks) + 5)
+    r = run_killable(_measure_family_inner, (name, ks, False), 6 * BUDGET_S * len(ks))
     if r is not None and not (isinstance(r, tuple) and r and r[0] == "__error__"):
         return r
     return _measure_family_inner((name, ks, True))
@@ -285,7 +285,7 @@ def lex_time(args):
     """wall time of lexing one adversarial literal, under a budget (a catastrophic regex must not hang the
     check: the scan runs in a child process that is killed when it exceeds the budget)"""
     from ..common import run_killable
-    r = run_killable(_lex_time_inner, args, LEX_BUDGET_S + 3)
+    r = run_killable(_lex_time_inner, args, 6 * LEX_BUDGET_S)
     if r is None or (isinstance(r, tuple) and r and r[0] == "__error__"):
         name, n = args
         return name, n, len(REGEX_FAMILIES[name](n)), float(LEX_BUDGET_S) + 3
@@ -301,17 +301,19 @@ def _lex_time_inner(args):
     def onalarm(sig, frm):
         raise _Timeout()
 
-    old = signal.signal(signal.SIGALRM, onalarm)
-    signal.setitimer(signal.ITIMER_REAL, LEX_BUDGET_S)
-    t0 = time.time()
+    # processor time of this process, not wall time: the margin must not depend on what else the
+    # machine is doing (a loaded machine once stretched 0.24 s of work to 4.3 s of wall time)
+    old = signal.signal(signal.SIGPROF, onalarm)
+    signal.setitimer(signal.ITIMER_PROF, LEX_BUDGET_S)
+    t0 = time.process_time()
     try:
         py_scan(text, limit=10 * len(text) + 100)
-        wall = time.time() - t0
+        wall = time.process_time() - t0
     except _Timeout:
         wall = float(LEX_BUDGET_S) + 1
     finally:
-        signal.setitimer(signal.ITIMER_REAL, 0)
-        signal.signal(signal.SIGALRM, old)
+        signal.setitimer(signal.ITIMER_PROF, 0)
+        signal.signal(signal.SIGPROF, old)
     return name, n, len(text), wall
 
 
@@ -400,9 +402,9 @@ def run(ctx):
         n_eval += 1
         limit = 2.0 if size < 5000 else 8.0
         if wall > limit:
-            ctx.violation("lexer took %.1f s on %d characters of family %s" % (wall, size, name), {"kind": "regex-family", "family": name, "n": n})
+            ctx.violation("lexer took %.1f s of processor time on %d characters of family %s" % (wall, size, name), {"kind": "regex-family", "family": name, "n": n})
     ctx.extra["regex_families_max_wall_s"] = round(max(w for _, _, _, w in lres), 3)
-    ctx.rule("%d scalable families (k-fold repetition of every declaration/statement kind; depth-k nesting of parentheses, casts, sizeof, calls, subscripts, initializer braces, blocks, if/else and ?: chains, pointer/array/function declarators, structs, compound literals, type names and compound literals inside array bounds, every 'type name or expression?' decision nested inside itself: sizeof / _Alignof / cast / _Alignas / offsetof / _Atomic( / _Static_assert / compound literal with and without postfix, function-pointer parameters, designators; loops, switch/case, labels) at 3-5 sizes: deterministic amount of work (source lines executed during the parse in pycparser and in every library module it calls, via sys.settrace - loops inside a function and standard-library copies count), struct / enum specifiers shared by k declarators, must grow at most ~linearly between consecutive sizes and, over three sizes k / 2k / 4k, have no quadratic term carrying 3 percent (repetition) or 25 percent (nesting) of the work, token-stream and lexer call counts must equal the Lean model's tick counters exactly, on the families and on every program of the pool; %d adversarial literal families for the lexer regexes with wall-time margins" % (len(FAMILIES), len(REGEX_FAMILIES)))
+    ctx.rule("%d scalable families (k-fold repetition of every declaration/statement kind; depth-k nesting of parentheses, casts, sizeof, calls, subscripts, initializer braces, blocks, if/else and ?: chains, pointer/array/function declarators, structs, compound literals, type names and compound literals inside array bounds, every 'type name or expression?' decision nested inside itself: sizeof / _Alignof / cast / _Alignas / offsetof / _Atomic( / _Static_assert / compound literal with and without postfix, function-pointer parameters, designators; loops, switch/case, labels) at 3-5 sizes: deterministic amount of work (source lines executed during the parse in pycparser and in every library module it calls, via sys.settrace - loops inside a function and standard-library copies count), struct / enum specifiers shared by k declarators, must grow at most ~linearly between consecutive sizes and, over three sizes k / 2k / 4k, have no quadratic term carrying 3 percent (repetition) or 25 percent (nesting) of the work, token-stream and lexer call counts must equal the Lean model's tick counters exactly, on the families and on every program of the pool; %d adversarial literal families for the lexer regexes with processor-time margins" % (len(FAMILIES), len(REGEX_FAMILIES)))
     ctx.count(n_eval, nontrivial_n=n_eval)
     ctx.sample({"kind": "family", "name": "nest-complit-in-bound", "k": 3, "text": FAMILIES["nest-complit-in-bound"](3)})
 
